@@ -172,7 +172,20 @@ C05LogTrees(m) ==
      CallC(0, "catch", Z, <<Log(7), CallC(1, "catch", Z, <<Log(8), CallC(2, "catch", Z, <<Log(9), Store(5)>>), Inval(3)>>), Log(10)>>),
      CallC(0, "catch", Z, <<CallC(1, "catch", Z, <<Log(8), Store(5)>>), CallC(2, "bubble", Z, <<Log(9), Rev(3)>>), Log(10)>>)}
 C05Logs == UNION {{[setup |-> Setup("a1", "self", GrantsFor(m, "C1"), Z), top |-> t] : t \in C05LogTrees(m)} : m \in {"query", "delegate"}}
-C05All == Later(C05Logs) \cup C05Logs \cup C05Failed \cup C05Destroy \cup C02Plain \cup C02PcValue \cup Warm(C02Plain \cup C05Destroy \cup C02PcValue)
+\* CREATE inside the tree, onto an address that already holds coins: constructor reverts / runs out of gas / calls a
+\* precompile first; the creating frame goes on (a later transfer to the address included) or is itself reverted
+CreateN(id, mode, value, body) == [Create(id, value, body) EXCEPT !.mode = mode]
+C05NestedCreate ==
+    {[setup |-> Setup("a1", "self", GrantsFor("delegate", "N2"), Z), top |-> t] : t \in {
+        CallC(0, "catch", "900", <<Store(1), CreateN(2, "catch", "300", <<Store(3), Rev(4)>>), Send(5, "T", "50"), Store(6)>>),
+        CallC(0, "catch", "900", <<CreateN(2, "catch", "300", <<Store(3), Rev(4)>>), Send(5, "N2", "70"), Store(6)>>),
+        CallC(0, "catch", Z, <<CreateN(2, "catch", "300", <<Store(3), Inval(4)>>), Send(5, "N2", "70")>>),
+        CallC(0, "catch", Z, <<CreateN(2, "catch", "300", <<Store(3), Log(7)>>), Send(5, "N2", "70"), Store(6)>>),
+        CallC(0, "catch", Z, <<CallC(1, "catch", "400", <<CreateN(2, "catch", "100", <<Store(3)>>), Rev(4)>>), Store(5)>>),
+        CallC(0, "catch", Z, <<CallC(1, "catch", "400", <<CreateN(2, "catch", "100", <<Store(3)>>), Query(7), Rev(4)>>), Send(8, "N2", "70"), Store(5)>>),
+        CallC(0, "catch", Z, <<CreateN(2, "catch", Z, <<Pc(3, "catch", "delegate", "S", Amt), Rev(4)>>), Store(5)>>),
+        CallC(0, "catch", Z, <<CreateN(2, "bubble", "300", <<Rev(4)>>), Store(5)>>) }}
+C05All == Later(C05Logs) \cup C05NestedCreate \cup Warm(C05NestedCreate) \cup C05Logs \cup C05Failed \cup C05Destroy \cup C02Plain \cup C02PcValue \cup Warm(C02Plain \cup C05Destroy \cup C02PcValue)
           \cup UNION {{[setup |-> Setup("a1", w, GrantsFor(m, x.c), Z), top |-> x.t] : w \in {"self", "W"}, x \in C05Reentrant(m) \cup C05Create(m)} :
                        m \in {"delegate", "setWithdrawAddress", "withdrawRewards", "approve", "query"}}
           \cup UNION {{[setup |-> Setup("a1", w, GrantsFor(m, x.c), Z), top |-> x.t] : w \in {"self", "W"}, x \in C05Trees(m)} : m \in RevMethods}
@@ -214,6 +227,7 @@ C04Ibc ==
 
 Scenarios == CASE Family = "C02" -> C02Direct \cup C02ViaContract \cup C02Dirty \cup C02Nested \cup C02Forward \cup C02Plain \cup C02Own \cup C02Create
                                     \cup C02PcValue \cup C05Destroy \cup Warm(C02Plain \cup C02PcValue \cup C02Forward)
+                                    \cup {x \in C05NestedCreate \cup Warm(C05NestedCreate) : ~HasPcOp(x.top)}
                [] Family = "C05" -> C05All
                [] Family = "C04" -> C04Matrix \cup C04Sequences \cup C04Reverted \cup C04Ibc
                [] Family = "C04small" -> C04Matrix \cup C04Reverted
@@ -224,7 +238,7 @@ RECURSIVE Contracts(_)
 ContractsOp(o) == IF HasBody(o) THEN {ContractOf(o)} \cup Contracts(o.body) \cup Contracts(o.alt) ELSE {}
 Contracts(body) == IF body = <<>> THEN {} ELSE ContractsOp(body[1]) \cup Contracts(Tail(body))
 RECURSIVE Slots(_, _)
-SlotsOp(self, o) == (IF o.op \in {"pc", "call", "recall", "sstore"} THEN {<<self, "s" \o ToString(o.id)>>} ELSE {})
+SlotsOp(self, o) == (IF o.op \in {"pc", "call", "recall", "sstore", "create"} THEN {<<self, "s" \o ToString(o.id)>>} ELSE {})
                     \cup (IF HasBody(o) THEN Slots(ContractOf(o), o.body) \cup Slots(ContractOf(o), o.alt) ELSE {})
 Slots(self, body) == IF body = <<>> THEN {} ELSE SlotsOp(self, body[1]) \cup Slots(self, Tail(body))
 
@@ -262,8 +276,8 @@ AbstractPre(x) ==
          grantExp |-> [g \in as |-> [e \in as \ {g} |-> [t \in StakeTypes |-> "-"]]],
          storage |-> IF cs = {} THEN [c \in {"_"} |-> [k \in {"_"} |-> 0]]
                      ELSE [c \in cs |-> [k \in {p[2] : p \in {q \in sl : q[1] = c}} |-> 0]],
-         nonce |-> [a \in as |-> IF a \in cs THEN (IF a = "N0" THEN "0" ELSE "1") ELSE "3"],
-         code |-> [a \in as |-> IF a \in cs /\ a # "N0" THEN "yes" ELSE "no"],
+         nonce |-> [a \in as |-> IF a \in cs THEN "0" ELSE "3"],
+         code |-> [a \in as |-> IF a \in cs /\ SubSeq(a, 1, 1) # "N" THEN "yes" ELSE "no"],
          logs |-> <<>>,
          commission |-> [v \in vs |-> "555"] ]
 
